@@ -521,15 +521,23 @@ func (c *FnCtx) evalBinary(x *ast.BinaryExpr, st *State) string {
 		case r == nilPlaceholder || isUntypedNil(rt):
 			res = c.isNil(l, lt)
 		default:
-			// mixed interface / concrete comparison
+			// mixed interface / concrete comparison: never panics (the concrete type is comparable)
+			mixed := false
 			if isIface(lt) && !isIface(rt) {
 				r = c.box(r, rt, st)
 				rt = lt
+				mixed = true
 			} else if isIface(rt) && !isIface(lt) {
 				l = c.box(l, lt, st)
 				lt = rt
+				mixed = true
 			}
-			res = c.equal(l, r, lt, st, x.Pos())
+			if mixed || assumedComparableIface(lt) {
+				res = eq(l, r)
+			} else {
+				c.cmpLabel = c.src(x)
+				res = c.equal(l, r, lt, st, x.Pos())
+			}
 		}
 		if x.Op == token.NEQ {
 			return not(res)
@@ -560,13 +568,31 @@ func (c *FnCtx) equal(l, r string, t types.Type, st *State, pos token.Pos) strin
 			c.declare("dummy", sInt)
 			goal := or(eq(l, "inil"), eq(r, "inil"), not(eq("(ityp "+l+")", "(ityp "+r+")")), "(tcomparable (ityp "+l+"))")
 			if goal != "true" && !(strings.HasPrefix(l, "(ibox ") && knownComparable(l)) && !(strings.HasPrefix(r, "(ibox ") && knownComparable(r)) {
-				c.safety(st, "ifacecmp", "==", goal, pos)
+				lbl := c.cmpLabel
+				if lbl == "" {
+					lbl = "=="
+				}
+				c.cmpLabel = ""
+				c.safety(st, "ifacecmp", lbl, goal, pos)
 			}
 		}
 	case *types.Slice:
 		return and(eq("(sbase "+l+")", "0"), eq("(sbase "+r+")", "0"))
 	}
 	return eq(l, r)
+}
+
+// assumedComparableIface: static interface types whose dynamic values are assumed comparable
+// (reflect.Type holds *rtype; error values of the libraries used are pointers or strings). Listed assumption.
+func assumedComparableIface(t types.Type) bool {
+	n, ok := types.Unalias(t).(*types.Named)
+	if !ok {
+		return false
+	}
+	if n.Obj().Pkg() == nil {
+		return n.Obj().Name() == "error"
+	}
+	return n.Obj().Pkg().Path() == "reflect" && n.Obj().Name() == "Type"
 }
 
 func knownComparable(box string) bool { return !strings.Contains(box, "mkSlice") || strings.HasSuffix(box, " nilSlice)") }
